@@ -130,6 +130,7 @@ type Graph struct {
 	NR   *NoReturn
 
 	switches map[*ast.CaseClause]*ast.SwitchStmt
+	flagVars map[*types.Var]bool
 	Prog     *core.Program // set by Of/OfLit: enables predicate-helper expansion in EdgeFacts
 }
 
@@ -250,6 +251,14 @@ type Query struct {
 	AvoidEdge  func(b *cfg.Block, succ int) bool
 	Target     func(n ast.Node) bool
 	TargetExit func(b *cfg.Block, k ExitKind) bool
+	// Assume lists facts taken as true at From (see flags.go): edges that
+	// contradict them, alone or together with what the path establishes, are
+	// not followed.
+	Assume []Fact
+	// Via, when set, arms the query only once the path has entered a block it
+	// accepts: before that, Target, Avoid and TargetExit are not consulted (the
+	// path only accumulates what its branches establish).
+	Via func(b *cfg.Block) bool
 }
 
 // Path runs the query and returns a witness (list of rendered nodes) or nil
@@ -259,12 +268,20 @@ func (g *Graph) Path(q Query) []string {
 		b    *cfg.Block
 		prev *state
 		from int
+		env  flagEnv
+		via  bool
 	}
 	start := q.From
 	if start.B == nil {
 		start = g.Entry()
 	}
-	visited := map[*cfg.Block]bool{}
+	type vkey struct {
+		b   *cfg.Block
+		env string
+		via bool
+	}
+	visited := map[vkey]bool{}
+	perBlock := map[*cfg.Block]int{}
 	var witness func(s *state, last ast.Node, exit string) []string
 	witness = func(s *state, last ast.Node, exit string) []string {
 		var chain []*state
@@ -291,7 +308,11 @@ func (g *Graph) Path(q Query) []string {
 		return out
 	}
 	var queue []*state
-	first := &state{b: start.B, from: start.I}
+	var seed flagEnv
+	for _, f := range q.Assume {
+		seed = g.assume(f.Expr, f.Val, seed)
+	}
+	first := &state{b: start.B, from: start.I, env: seed, via: q.Via == nil || q.Via(start.B)}
 	queue = append(queue, first)
 	firstVisit := true
 	for len(queue) > 0 {
@@ -299,28 +320,42 @@ func (g *Graph) Path(q Query) []string {
 		queue = queue[1:]
 		i := s.from
 		cut := false
+		env := s.env
 		for ; i < len(s.b.Nodes); i++ {
 			n := s.b.Nodes[i]
 			isStart := firstVisit && i == start.I
 			if isStart && q.After {
+				env = g.transfer(n, env)
 				continue
 			}
-			if q.Target != nil && q.Target(n) {
+			if s.via && q.Target != nil && q.Target(n) {
 				return witness(s, n, "")
 			}
-			if q.Avoid != nil && q.Avoid(n) {
+			if s.via && q.Avoid != nil && q.Avoid(n) {
 				cut = true
 				break
 			}
+			env = g.transfer(n, env)
 		}
 		firstVisit = false
 		if cut {
 			continue
 		}
 		if len(s.b.Succs) == 0 {
-			if q.TargetExit != nil {
+			if q.TargetExit != nil && s.via {
 				k := g.Exit(s.b)
-				if k != NotExit && q.TargetExit(s.b, k) {
+				hit := false
+				if k != NotExit {
+					ret, _ := lastNode(s.b).(*ast.ReturnStmt)
+					if ret != nil && len(env) > 0 {
+						activeRet.Store(ret, retEnv{g, env})
+					}
+					hit = q.TargetExit(s.b, k)
+					if ret != nil {
+						activeRet.Delete(ret)
+					}
+				}
+				if hit {
 					return witness(s, nil, fmt.Sprintf("leaves through %s", exitName(k)))
 				}
 			}
@@ -330,11 +365,21 @@ func (g *Graph) Path(q Query) []string {
 			if q.AvoidEdge != nil && q.AvoidEdge(s.b, si) {
 				continue
 			}
-			if visited[t] {
+			if g.edgeInfeasible(s.b, si, env) {
 				continue
 			}
-			visited[t] = true
-			queue = append(queue, &state{b: t, prev: s, from: 0})
+			tenv := g.learn(s.b, si, env)
+			if perBlock[t] >= 32 {
+				tenv = nil // too many distinct valuations reach t: continue without pruning
+			}
+			tvia := s.via || q.Via(t)
+			k := vkey{t, tenv.key(), tvia}
+			if visited[k] || visited[vkey{t, "", tvia}] {
+				continue
+			}
+			visited[k] = true
+			perBlock[t]++
+			queue = append(queue, &state{b: t, prev: s, from: 0, env: tenv, via: tvia})
 		}
 	}
 	return nil
@@ -515,6 +560,17 @@ func ClassifyReturn(info *types.Info, body ast.Node, ret *ast.ReturnStmt) RetKin
 	}
 	if _, isCall := last.(*ast.CallExpr); isCall {
 		return RetErr // errors.New / Errorf / Trace ... construct a non-nil error
+	}
+	// a path query is asking about this return: the constants the path assigned
+	// to the returned variable decide (see flags.go)
+	if v, ok := activeRet.Load(ret); ok {
+		re := v.(retEnv)
+		switch re.g.classOf(last, re.env) {
+		case 1:
+			return RetNilErr
+		case 2:
+			return RetErr
+		}
 	}
 	// `if x != nil { ... return x }`
 	path := core.PathTo(body, ret)
